@@ -642,6 +642,9 @@ class SimulateOde(DeterministicOde):
         '''
 
         dX=np.array(dX)   # convert to numpy array so we can interpolate between timepoints
+        if dX.ndim < 2:
+            # a path on which no event was recorded has no counts at all
+            dX=dX.reshape(0, self.num_events)
 
         dims=dX.shape         # Get dimensions of data (timepoints x n_trans)
         n_trans=dims[1]
